@@ -231,10 +231,8 @@ def r18_3(ctx: Ctx, E: Effects, rule="R18.3"):
     rr = pfind3(gi.node, "V_r = self._each_atom_resid[%s]" % ip)
     if rr:
         rv = rr[0][1]["V_r"]
-        aa = pfind3(gi.node, "V_a = sum((V_i == %s for V_i in self._each_atom_resid[:%s]))" % (rv, ip))
-        if aa:
-            av = aa[0][1]["V_a"]
-            okg = bool(pfind3(gi.node, "Atom(self._molecule_top[%s], self._residues[%s][%s])" % (ip, rv, av)))
+        okg = bool(pfind3(gi.node, "Atom(self._molecule_top[%s], self._residues[%s][sum((V_i == %s for V_i in self._each_atom_resid[:%s]))])"
+                          % (ip, rv, rv, ip)))
     ctx.ob(rule, gi, "atom lookup in Molecule.__getitem__", okg,
            "atom i is (topology atom i, coordinate atom number 'atoms of the same residue before i' of the residue that atom i "
            "belongs to)", node=gi.node)
